@@ -124,7 +124,11 @@ func (m *Machine) invokeValue(th *Thread, fnv Value, args []Value, dest ssa.Valu
 			fn.Pkg.Build()
 		}
 		if fn.Blocks == nil {
-			m.unsupported("call of external function without intrinsic: %s", name)
+			og := ""
+			if o := fn.Origin(); o != nil {
+				og = fmt.Sprintf(" origin=%s originBlocks=%d", o, len(o.Blocks))
+			}
+			m.unsupported("call of external function without intrinsic: %s (synthetic=%q pkg=%v%s)", name, fn.Synthetic, fn.Pkg, og)
 		}
 	}
 	if fn.Synthetic == "package initializer" {
